@@ -33,6 +33,7 @@ Apis(dn) == SelectSeq(dn, LAMBDA d : d[1] = "api")
 Match(y, e) ==
   /\ y.ptr = e.pi
   /\ y.st = e.sts
+  /\ y.nstop = e.ns                  \* the application's stop callback: once per ended session, never otherwise
   /\ SameOps(Mgmt(y.dn), Mgmt(e.dn))
   \* a refused API call raised a connection error in this very callback and wrote nothing
   /\ (y.gate = "shut") => (e.wn = 0 /\ Len(Apis(e.dn)) = 1 /\ Apis(e.dn)[1][3])
@@ -44,7 +45,7 @@ Match(y, e) ==
   /\ (y.gate = "failed") => (Len(Apis(e.dn)) = 1 /\ Apis(e.dn)[1][3])
 
 Diff(y, e) ==
-  (IF y.ptr # e.pi THEN {"pi"} ELSE {}) \cup (IF y.st # e.sts THEN {"sts"} ELSE {}) \cup
+  (IF y.ptr # e.pi THEN {"pi"} ELSE {}) \cup (IF y.st # e.sts THEN {"sts"} ELSE {}) \cup (IF y.nstop # e.ns THEN {"ns"} ELSE {}) \cup
   (IF ~SameOps(Mgmt(y.dn), Mgmt(e.dn)) THEN {"dn"} ELSE {}) \cup
   (IF y.gate = "shut" /\ ~(e.wn = 0 /\ Len(Apis(e.dn)) = 1 /\ Apis(e.dn)[1][3]) THEN {"gate"} ELSE {}) \cup
   (IF y.gate = "shut_in_stop" /\ ~(Len(Apis(e.dn)) = Len(Apis(y.dn)) /\ (\A k \in 1..Len(Apis(e.dn)) : Apis(e.dn)[k][3])
